@@ -64,9 +64,9 @@ Definition chunked_eq_whole_at (s : nat * nat) (m : Q * (ext * ext)) (img : list
   let yc := unit_coords (Z.of_nat (fst s)) in
   let R := fst (snd m) in let M := snd (snd m) in
   let d := halo (fst m) xc yc in
-  let wh := whole key_euclid (fun _ => false) R M xc yc [] img in
+  let wh := whole (metric_of_key key_euclid) (fun _ => false) R M xc yc [] img in
   forallb (fun rch => forallb (fun cch =>
-      grid_eqb (chunked key_euclid (fun _ => false) R M xc yc [] img rch cch (fst d) (snd d)) wh)
+      grid_eqb (chunked (metric_of_key key_euclid) (fun _ => false) R M xc yc [] img rch cch (fst d) (snd d)) wh)
     (compositions (snd s))) (compositions (fst s)).
 
 Definition shape_layouts (s : nat * nat) : list (list (list xv)) := layouts (fst s) (snd s).
